@@ -7,7 +7,7 @@ from sqlite_dissect import interface
 from sqlite_dissect.file.database.page import BTreePage
 from sqlite_dissect.file.database.utilities import get_pages_from_b_tree_page
 
-from ..gen import sqlite_factory as F
+from ..gen import histories as H, sqlite_factory as F
 from . import dbcommon as C
 
 ID = "C14"
@@ -112,11 +112,37 @@ def match_multiset(ctx, got, want, what, case):
         ctx.oracle_fail("entry-count", f"{what}: number of entries differs from SQLite's", case, len(got), len(want))
 
 
+def wal_versions(ctx, sc, r):
+    """index b-trees in the versions of a WAL: an overflowing WITHOUT ROWID row (table w0 of the overflow_inplace histories)
+    is updated in place, SQLite rewrites one overflow page only, and the leaf page with the cell keeps its older version;
+    every version must still decode to the entries SQLite has after that commit"""
+    import re
+    for i in range(6 if ctx.thorough() else 2):
+        cfg = F.random_cfg(r, page_sizes=[512, 1024], small=True)
+        cfg["auto_vacuum"] = 0
+        h = H.make_history(sc.path(f"c14h{i}"), cfg, r, kind="overflow_inplace")
+        case = {"kind": h.kind, "cfg": cfg, "events": h.events, "seed": ctx.seed}
+        n0 = len(ctx.oracle_failures)
+        impl, vh, exc = C.compare_history_dump(ctx, h.db, h.wal, "vh.dump")
+        ctx.branch("wal-versions:" + ("ok" if vh is not None else "rejected"))
+        if vh is None:
+            ctx.oracle_fail("rejected", f"a database/WAL pair written by SQLite is rejected: {impl}", case, impl, "accepted")
+            C.keep_failing_files(ctx, n0, h.db, h.wal)
+            continue
+        bad = re.findall(r"(V\d+\.(?:schema|census|tree\d+))=(err \w+)", impl)
+        if bad:
+            ctx.oracle_fail("version-unreadable", "a b-tree of a version of a database/WAL pair written by SQLite cannot be read: "
+                            + ", ".join(f"{a} {b}" for a, b in bad[:4]), dict(case, sections=[a for a, _ in bad][:8]), bad[0][1], "readable")
+            C.keep_failing_files(ctx, n0, h.db, h.wal)
+            continue
+
+
 def run(ctx, n_quick=36, n_thorough=400):
     sc = C.Scratch()
     try:
         r = ctx.rng
         nent = 0
+        wal_versions(ctx, sc, r)
         for b in C.build_databases(ctx, sc, C.n_databases(ctx, n_quick, n_thorough), force={"index_boundary": lambda i: i % 3 == 0}):
             case = {"cfg": b.cfg, "seed": ctx.seed}
             n0 = len(ctx.oracle_failures)
